@@ -227,6 +227,11 @@ func checkC05(ck *Check) {
 	pctP := paramsOfKind(fn, isFloat64)
 	reqP := paramsOfKind(fn, isQuantity)
 	capF := []string{"cpuCapacity", "memCapacity"}
+	for i, nm := range capF {
+		if fv := field(a.TState, nm); fv != nil {
+			capF[i] = fv.Name()
+		}
+	}
 	if len(pctP) != 2 || len(reqP) != 2 {
 		ck.fail("C05.R2", "calcScaleUpDelta/params", "", funcID(fn), "calcScaleUpDelta takes (cpu %, mem %) and (cpu request, mem request)", fmt.Sprintf("%d floats, %d quantities", len(pctP), len(reqP)), "")
 		return
@@ -529,10 +534,10 @@ func (ck *Check) quantityKind(q *Term, env map[string]string) string {
 		}
 	}
 	if q.Kind == "field" {
-		switch q.Name {
-		case "cpuCapacity":
+		switch q.Obj {
+		case types.Object(field(ck.A.TState, "cpuCapacity")):
 			return "cpu"
-		case "memCapacity":
+		case types.Object(field(ck.A.TState, "memCapacity")):
 			return "mem"
 		}
 	}
